@@ -107,7 +107,7 @@ def validate(run, trace, st):
     run.distinct += st["stats"].get("renders_with_2plus_imports", 0)
     run.rule += ("histories = every observation-terminated behaviour of the TLC universes (exported, one per explored state) "
                 "plus seeded Go drivers; distinct_nontrivial = distinct raw outputs of renders whose import block has >= 2 specs")
-    run.samples += st.get("samples", [])
+    run.samples += (st.get("samples") or [])
     run.cov["other_properties_flagged_in_same_traces"] = others
     run.cov.setdefault("harness_stats", []).append(st["stats"])
     run.assumptions += [
